@@ -260,19 +260,10 @@ def interleaved(model, info, art):
     the shape (a duplicate open_run before the first), a pause, resume, close: the clauses of the obligation on the documents"""
     clause = art.get("obligation") or ""
     M = info.get("checkpoint", "checkpoint")
-    if "keys" in info:
-        ka, kb = PAIRS[info["keys"]]
-        shape, dup, cache = list(info.get("shape") or []), bool(info.get("dup")), info.get("cache", "messages")
-    else:
-        # (frame obligation of an implicit-checkpoint handler: the message goes to run `key`, every other open run plays A)
-        kb = KEYS[info["key"]]
-        ka = [KEYS[k] for k in OPEN if KEYS[k] != kb][0]
-        shape, dup, cache = ["A"], False, "messages"
-        M = {"close_run": "close_run_B", "monitor": "monitor_B", "unmonitor": "unmonitor_B"}[M]
+    ka, kb = PAIRS[info["keys"]]
+    shape, dup, cache = list(info.get("shape") or []), bool(info.get("dup")), info.get("cache", "messages")
     n = {"A": get(model, "next_A", "int", 2), "B": get(model, "next_B", "int", 1)}
     s = {"A": get(model, "snap_A", "int", 1), "B": get(model, "snap_B", "int", 1)}
-    if "keys" not in info:
-        n, s = {"A": 2, "B": 1}, {"A": 1, "B": 1}
     if max(n.values()) > 3000 or min(s.values()) < 1:
         return "not-constructible", f"counters {n} / {s}"
     key = {"A": ka, "B": kb}
@@ -340,13 +331,30 @@ def interleaved(model, info, art):
             yield Msg("unmonitor", sig, run=kb)
         for R in open_now:
             yield Msg("close_run", run=key[R])
+    setup = f"keys A={ka!r} B={kb!r}, next/snap A={n['A']}/{s['A']} B={n['B']}/{s['B']}, checkpoint={M}, events={shape}, dup={dup}"
+    rejected = None
     try:
         RE(plan())
         return "not-constructible", "the plan did not pause"
     except RunEngineInterrupted:
         pass
+    except Exception as e:      # noqa: BLE001 - a message of the plan was rejected / failed
+        rejected = e
     n_pause = len(docs)
-    RE.resume()
+    if rejected is None:
+        try:
+            RE.resume()
+        except Exception as e:      # noqa: BLE001
+            rejected = e
+    if rejected is not None:
+        if RE.state != "idle":
+            try:
+                RE.abort()
+            except Exception:      # noqa: BLE001
+                pass
+        if "duplicate open_run" in clause or "every open run's snapshot" in clause:
+            return "not-constructible", setup + f": the plan failed with {rejected!r}"
+        return "confirmed", setup + f": a message of the plan was not applied to the run of its key: the plan failed with {rejected!r}"
     desc = {d["uid"]: d for nm, d in docs if nm == "descriptor"}
     num, own, ck, dp = [], [], [], []
     for R, (cnt, copy) in state["ckpt"].items():
@@ -376,7 +384,7 @@ def interleaved(model, info, art):
             num.append(f"run {R} (key {key[R]!r}): seq_nums {[e['seq_num'] for e in first]} before the pause, {[e['seq_num'] for e in second]} for the replayed events, expected {want} both times")
         if stops[0]["num_events"].get("primary") != n[R] - 1 + k:
             num.append(f"run {R}: stop.num_events = {stops[0]['num_events']}, expected primary = {n[R] - 1 + k}")
-    if "refreshes the checkpoint state" in clause or "every open run's snapshot" in clause:
+    if "every open run's snapshot" in clause:
         problems = ck
     elif "duplicate open_run" in clause:
         problems = dp
@@ -384,5 +392,53 @@ def interleaved(model, info, art):
         problems = own
     else:
         problems = num
-    setup = f"keys A={ka!r} B={kb!r}, next/snap A={n['A']}/{s['A']} B={n['B']}/{s['B']}, checkpoint={M}, events={shape}, dup={dup}"
     return ("confirmed" if problems else "contradicted"), setup + ": " + ("; ".join(problems) or "every clause holds")
+
+
+def checkpoint_all(model, info, art):
+    """runs None / 'a' / 0 open, each one event past its snapshot; then the implicit-checkpoint message of `handler` for run `key`:
+    afterwards the snapshot of every run that is still open is its current numbering and the engine's message cache is empty"""
+    h, label = info["handler"], info["key"]
+    key = KEYS[label]
+    RE = RunEngine(context_managers=[])
+    det = {k: Det(f"det_{k}") for k in OPEN}
+    sig = Det("sig")
+    state = {}
+
+    def event(k):
+        yield Msg("create", name="primary", run=KEYS[k])
+        yield Msg("read", det[k], run=KEYS[k])
+        yield Msg("save", run=KEYS[k])
+
+    def plan():
+        for k in OPEN:
+            yield Msg("open_run", run=KEYS[k])
+        for k in OPEN:
+            yield from event(k)
+        if h == "_unmonitor":
+            yield Msg("monitor", sig, name="mon", run=key)
+        yield Msg("checkpoint")
+        for k in OPEN:
+            yield from event(k)
+        if h == "_close_run":
+            yield Msg("close_run", run=key)
+        elif h == "_monitor":
+            yield Msg("monitor", sig, name="mon", run=key)
+        else:
+            yield Msg("unmonitor", sig, run=key)
+        state["runs"] = {k: (dict(RE._run_bundlers[KEYS[k]]._sequence_counters), dict(RE._run_bundlers[KEYS[k]]._sequence_counters_copy))
+                         for k in OPEN if KEYS[k] in RE._run_bundlers}
+        state["cache"] = None if RE._msg_cache is None else len(RE._msg_cache)
+        if h == "_monitor":
+            yield Msg("unmonitor", sig, run=key)
+        for k in list(RE._run_bundlers):
+            yield Msg("close_run", run=k)
+    RE(plan())
+    stale = [f"run {k!r}: snapshot of 'primary' is {copy.get('primary')} while the run is at {cnt.get('primary')}"
+             for k, (cnt, copy) in state["runs"].items() if copy.get("primary") != cnt.get("primary")]
+    want = [k for k in OPEN if not (h == "_close_run" and k == label)]
+    if sorted(state["runs"]) != sorted(want):
+        stale.append(f"open runs afterwards {sorted(state['runs'])}")
+    if state["cache"] != 0:
+        stale.append(f"message cache afterwards: {state['cache']}")
+    return ("confirmed" if stale else "contradicted"), f"{h[1:]}(run={key!r}) with runs {OPEN} open, each one event past its snapshot: " + ("; ".join(stale) or "every open run's snapshot refreshed")
